@@ -639,6 +639,13 @@ func drive(id, tier string) int {
 				if len(stderr) > 200000 {
 					stderr = stderr[:100000] + "\n...\n" + stderr[len(stderr)-100000:]
 				}
+				if !timedOut && strings.Contains(stderr, "VERIF-INCONCLUSIVE:") {
+					// the worker gave up on a case without a verdict (starved of CPU) and left
+					os.Rename(out+".stderr", fmt.Sprintf("%s.stderr.%d", out, attempt))
+					rs.inconc++
+					startAfter = ci
+					continue
+				}
 				if timedOut {
 					sig := "hang:case"
 					rs.crashes = append(rs.crashes, Violation{Property: id, Sig: sig,
@@ -862,4 +869,76 @@ func selfCPUms() int64 {
 		return 0
 	}
 	return (ru.Utime.Sec+ru.Stime.Sec)*1000 + int64(ru.Utime.Usec+ru.Stime.Usec)/1000
+}
+
+// WaitOrHang waits for done. It is the in-worker counterpart of the driver's watchdog and, like
+// it, does not take a verdict from the wall clock alone: "hang" is returned once at least T of
+// wall time has passed AND either this process has burnt T of CPU time since the call (something
+// spins) or no other thread of the process was runnable over a second of sampling (everything is
+// blocked). A process that is merely starved by other load keeps waiting, up to 20*T
+// ("inconclusive").
+func WaitOrHang(done <-chan struct{}, T time.Duration) string {
+	start, cpu0 := time.Now(), selfCPUms()
+	tick := time.NewTicker(200 * time.Millisecond)
+	defer tick.Stop()
+	for {
+		select {
+		case <-done:
+			return "done"
+		case <-tick.C:
+		}
+		wall := time.Since(start)
+		if wall < T {
+			continue
+		}
+		if time.Duration(selfCPUms()-cpu0)*time.Millisecond >= T {
+			return "hang"
+		}
+		if noOtherRunnableThread() {
+			return "hang"
+		}
+		if wall > 20*T {
+			return "inconclusive"
+		}
+	}
+}
+
+// noOtherRunnableThread: over ~1 s of sampling no thread of this process other than the sampling
+// one was running, runnable or in uninterruptible I/O.
+func noOtherRunnableThread() bool {
+	runtime.LockOSThread()
+	defer runtime.UnlockOSThread()
+	self := strconv.Itoa(syscall.Gettid())
+	for sample := 0; sample < 10; sample++ {
+		ents, err := os.ReadDir("/proc/self/task")
+		if err != nil || len(ents) == 0 {
+			return false
+		}
+		for _, e := range ents {
+			if e.Name() == self {
+				continue
+			}
+			b, err := os.ReadFile("/proc/self/task/" + e.Name() + "/stat")
+			if err != nil {
+				continue
+			}
+			t := string(b)
+			i := strings.LastIndexByte(t, ')')
+			if i < 0 || i+2 >= len(t) {
+				return false
+			}
+			if st := t[i+2]; st == 'R' || st == 'D' {
+				return false
+			}
+		}
+		time.Sleep(100 * time.Millisecond)
+	}
+	return true
+}
+
+// AbandonInconclusive ends a worker that cannot go on (a call it is waiting for never came back)
+// but has no verdict either; the driver counts the case as inconclusive and restarts after it.
+func AbandonInconclusive(why string) {
+	fmt.Fprintln(os.Stderr, "VERIF-INCONCLUSIVE: "+why)
+	os.Exit(9)
 }
